@@ -45,6 +45,7 @@ Reasons(e, dev) ==
                    n \in {m \in notes \ excusedNotes : m.state \notin NewStates}}
          ELSE {})
    \cup {<<"other-file-touched", o.path, o.state>> : o \in {p \in Range(e.others) : p.state # "old"}}
+   \cup {<<"link-target-damaged", o.path, o.state>> : o \in {p \in Range(e.targets) : p.state \notin {"old", "new", "both"}}}
    \cup {<<"path-created", x.path>> :
             x \in {y \in Range(e.extra) : /\ y.path \notin excusedExtra
                                           /\ (e.outcome \in {"done", "failed"} \/ y.md)}}
